@@ -494,6 +494,21 @@ val torowmajor : int list -> (int -> 'a1) -> int -> 'a1
 
 val tocolumnmajor : int list -> (int -> 'a1) -> int -> 'a1
 
+val gatherp : int list -> int list -> int list
+
+val index_of : int -> int list -> int
+
+val invp : int list -> int list
+
+val permute14 : int list -> int list -> (int -> 'a1) -> int -> 'a1
+
+val permute17 : int list -> int list -> (int -> 'a1) -> int -> 'a1
+
+val transpose_wrs : scalar -> int -> int -> int -> (int -> t) -> wr list
+
+val transpose_tiled :
+  scalar -> int -> int -> int -> (int -> t) -> (int -> t) -> int -> t
+
 val run_matmul_Z :
   cfg -> ety -> int -> int -> int -> z list -> z list -> z list
 
@@ -544,3 +559,9 @@ val run_idx_range_it : int -> int -> ((z * z) * z) -> int list -> int list
 val run_torowmajor : int list -> int list
 
 val run_tocolumnmajor : int list -> int list
+
+val run_permute : bool -> int list -> int list -> int list * int list
+
+val run_transpose : int -> int -> int -> z list
+
+val run_invp : int list -> int list
